@@ -197,7 +197,9 @@ def kfilt(
                 ntr_pad=0,
                 ntr_tap=None,
                 collection=None,
+                lagc=lagc,
                 butter_kwargs=butter_kwargs,
+                gpu=gpu,
             )
         return xout
     nx, nt = x.shape
